@@ -142,7 +142,8 @@ func main() {
 	switch os.Args[1] {
 	case "list":
 		for i, m := range collect(os.Args[2]) {
-			fmt.Printf("%d\t%s\t%d\t%s\t%s\t%s\n", i, m.file, m.off, strings.ReplaceAll(m.old, "\n", " "), strings.ReplaceAll(m.new, "\n", " "), m.pos)
+			flat := strings.NewReplacer("\n", " ", "\t", " ", "\r", "")
+			fmt.Printf("%d\t%s\t%d\t%s\t%s\t%s\n", i, m.file, m.off, flat.Replace(m.old), flat.Replace(m.new), m.pos)
 		}
 	case "apply":
 		// ids refer to the pristine tree: the copy must be pristine when this is called
